@@ -222,11 +222,70 @@ def shared_results(ctx, hist):
     return out
 
 
+def shared_inputs(ctx, hist):
+    """two sessions are handed the SAME input object (a bytearray holding the common first bytes of their next messages): neither may keep it —
+    what one session receives afterwards must not reach the other"""
+    rng = ctx.rng
+    out = []
+    o = M.PackingOptions()
+    for n in range(ctx.scale(300, 4000)):
+        ja = gen.g_msg(rng, rng.choice(REQUEST_KINDS), depth=2)
+        ja["id"] = 1
+        jb = copy.deepcopy(ja)
+        jb["id"] = rng.choice([1, 2, 77])
+        if rng.random() < 0.5:
+            jb = dict(gen.g_msg(rng, ja["op"]["k"], depth=2), id=jb["id"])
+        try:
+            xa, xb = C.msg_from_json(ja).pack(o), C.msg_from_json(jb).pack(o)
+        except BaseException:  # noqa: BLE001
+            continue
+        common = 0
+        while common < min(len(xa), len(xb)) - 1 and xa[common] == xb[common]:
+            common += 1
+        if common == 0:
+            continue
+        k = rng.randrange(1, common + 1)
+
+        def alone(x):
+            s = sansldap.LDAPServer()
+            try:
+                return [C.msg_to_json(m) for m in s.receive(bytes(x[:k])) + s.receive(bytes(x[k:]))], s.state.name
+            except sansldap.LDAPError as e:
+                return type(e).__name__, s.state.name
+
+        want_a, want_b = alone(xa), alone(xb)
+        for order in ("ABAB", "ABBA", "BAAB"):
+            head = bytearray(xa[:k]) if rng.random() < 0.8 else memoryview(bytearray(xa[:k]))
+            sess = {"A": sansldap.LDAPServer(), "B": sansldap.LDAPServer()}
+            rest = {"A": xa[k:], "B": xb[k:]}
+            got = {"A": [], "B": []}
+            seen = {"A": 0, "B": 0}
+            for who in order:
+                try:
+                    ms = sess[who].receive(head if seen[who] == 0 else rest[who])
+                    if isinstance(got[who], list):
+                        got[who] += [C.msg_to_json(m) for m in ms]
+                except sansldap.LDAPError as e:
+                    got[who] = type(e).__name__
+                seen[who] += 1
+            hist["shared-input:runs"] += 1
+            res = {w: (got[w], sess[w].state.name) for w in "AB"}
+            if res["A"] != want_a or res["B"] != want_b:
+                out.append({"key": None, "what": "two sessions given the same input object interfere: a session's result differs from the same deliveries "
+                            "made to it alone", "order": order, "shared_first_chunk": bytes(head).hex(), "rest_A": xa[k:].hex(), "rest_B": xb[k:].hex(),
+                            "alone": {"A": want_a, "B": want_b}, "interleaved": res})
+                break
+        if len(out) >= 5:
+            break
+    return out
+
+
 def run(ctx):
     rng = ctx.rng
     violations = registration_semantics() + different_registrations()
     hist = collections.Counter()
     violations += shared_results(ctx, hist)
+    violations += shared_inputs(ctx, hist)
     distinct = set()
     n_groups = ctx.scale(60, 1500)
     all_reqs = []
@@ -301,7 +360,8 @@ def run(ctx):
                 "harness/custom_types.py, registrations of every subset of them) interleaved in random order in one interpreter; each session's replies "
                 "must equal the replies of the same history run alone in a fresh interpreter, and the Lean model's; every message object receive() "
                 "handed out is re-serialised at the end of the interleaved run and must be unchanged; pairs of fresh sessions decode a message and a "
-                "variant of it (other control values) and the first result must not change; plus a direct test of the registration "
+                "variant of it (other control values) and the first result must not change; two sessions are handed the same bytearray (the common "
+                "first bytes of their next messages) and each must still receive its own message; plus a direct test of the registration "
                 "clause (registered session decodes the type, duplicate registration raises ValueError, unregistered and later-created sessions treat "
                 "the same bytes as an unknown type), in both orders; distinct = distinct interleavings",
         "samples": samples,
